@@ -27,8 +27,10 @@ LEVEL_TEXT = ('static analysis: (D1) a kind system for index values (family LABE
               'end and both side counts >= min_probes, counted by start < end / start >= end, only between segments of one chromosome, also when '
               'the next segment starts after a gap. D3 also has two genes whose spans overlap (every gene is examined for every boundary) and D2 '
               "runs group_by_genes end to end with the real by_gene on literal bins holding '-', '.', 'CGH' and Antitarget names: exactly the "
-              'named genes are reported, with the bins between their first and last bin. Does not decide behaviour on interleaved genes (outside '
-              "the property's premise).")
+              'named genes are reported, with the bins between their first and last bin. (CLI) the `genemetrics / breaks` command line(s), '
+              'through a model of argparse built from the declarations in commands.py and the real _cmd_ body interpreted with readers, library '
+              'step and writers stubbed: bins and segments in their roles, threshold, minimum bin count, --drop-low-coverage and the sex options '
+              "reach the report functions as given. Does not decide behaviour on interleaved genes (outside the property's premise).")
 TECHNIQUE = ("index-kind type system over one function's def-use chains; bounded exhaustive interpretation of by_gene on literal tables with "
              'literal index labels; abstract interpretation of the summary functions on symbolic rows')
 
@@ -224,7 +226,7 @@ def d2(chk, prog):
     for label, labels in (("default index", None), ("labels that are not positions", [3 * i + 7 for i in range(len(names))])):
         W.reset()
         rows = [dict(chromosome="chr1", start=10 * i, end=10 * i + 10, gene=nm, log2=Fr(i, 8), depth=Fr(i + 1), weight=Fr(1, 2)) for i, nm in enumerate(names)]
-        g = make_ga("CopyNumArray", rows, {"sample_id": "S"}, index="any", exact=True, labels=labels)
+        g = make_ga("CopyNumArray", rows, {"sample_id": "S"}, index="any" if labels else "range", exact=True, labels=labels or list(range(len(names))))
         it = Interp(prog)
         out = tbl.guard(lambda: list(it.run(fi.qn, [g, False])), label)
         if out is None:
@@ -362,7 +364,7 @@ def d3(chk, prog):
         W.reset()
         it = Interp(prog)
         l0, l1 = Term.sym("l0"), Term.sym("l1")
-        segs = [Row({"chromosome": "chr1", "start": 0, "end": ce, "log2": l0}), Row({"chromosome": "chr1", "start": ce, "end": 200, "log2": l1})]
+        segs = [Row({"chromosome": "chr1", "start": 0, "end": ce, "log2": Fr(0)}), Row({"chromosome": "chr1", "start": ce, "end": 200, "log2": Fr(1)})]          # literal levels: the result is sorted by them
         out = tb.guard(lambda: it.run(fi.qn, [two, segs, mp]), f"two genes end={ce} min_probes={mp}")
         if out is None:
             continue
@@ -380,6 +382,46 @@ def d3(chk, prog):
                    f"genes with exactly min_probes bins must be kept (>=); found `{norm(c)}`")
 
 
+def d4(chk, prog):
+    chk.clause("D4", "genemetrics adjusts bins and segments for one and the same sample sex: the stated one, else the one inferred from the bins")
+    fi = prog.fn("cnvlib.reports.do_genemetrics")
+    tb = Table(chk, "gene-summary", "do_genemetrics: the sex handed to shift_xx for the bins and for the segments (stated female / male / not stated) x reference sex x with / without segments", fi.loc(), fi.qn + "::sex adjustment")
+    for stated, hap, with_segs in itertools.product([None, True, False], [False, True], [True, False]):
+        W.reset()
+        model = Model()
+        calls = []
+        bins = make_ga("CopyNumArray", [dict(chromosome="chrX", start=0, end=10, gene="G", log2=0)], {"sample_id": "S", "role": "bins"}, exact=True)
+        segs = make_ga("CopyNumArray", [dict(chromosome="chrX", start=0, end=10, gene="G", log2=0)], {"sample_id": "S", "role": "segments"}, exact=True)
+        model.method_prims["guess_xx"] = lambda it, obj, *a, **k: ("inferred from the " + obj.meta["role"])
+
+        def shift(it, obj, hap_=False, is_xx=None, par=None, calls=calls):
+            calls.append((obj.meta["role"], hap_, is_xx if is_xx is not None else "inferred from the " + obj.meta["role"] + " (inside shift_xx)", par))
+            return obj
+        model.method_prims["shift_xx"] = shift
+        class Reached(Exception):
+            pass
+
+        def metrics(it, *a, **k):
+            raise Reached()                        # the adjustment is complete when the gene metrics are computed; the table assembly is D2's subject
+        model.prims["cnvlib.reports.gene_metrics_by_segment"] = metrics
+        model.prims["cnvlib.reports.gene_metrics_by_gene"] = metrics
+        it = Interp(prog, model)
+
+        def go():
+            try:
+                it.run(fi.qn, [bins, segs if with_segs else None, Fr(1, 5), 3, False, hap, stated, "grch38"])
+            except Reached:
+                return "reached"
+            return "returned without computing metrics"
+        out = tb.guard(go, f"stated={stated} male_reference={hap} segments={with_segs}")
+        if out is None:
+            continue
+        sex = stated if stated is not None else "inferred from the bins"
+        want = [("bins", hap, sex, "grch38")] + ([("segments", hap, sex, "grch38")] if with_segs else [])
+        tb.cell(calls == want and out == "reached", dict(stated_female=stated, male_reference=hap, segments=with_segs, shift_xx_calls=calls, want=want, outcome=out))
+    tb.done("bins and segments are not adjusted for the same sex (a sex inferred again from the segment table can differ from the bins'): chrX segments are shifted by a whole copy and their genes reported at the wrong log2")
+
+
 def run(chk):
     prog = chk.prog
     chk.trust("Python grammar via ast", "pandas: .loc[a:b] closed on labels, .iloc[a:b] half-open on positions; Series.items() yields (label, value)",
@@ -390,6 +432,7 @@ def run(chk):
     d2(chk, prog)
     d3a(chk, prog)
     d3(chk, prog)
+    d4(chk, prog)
     chk.clause("CLI", "the `genemetrics` / `breaks` command lines: bins and segments in their roles, threshold, minimum bin count and sex options reach the report functions")
     from .. import cliglue
     cliglue.check_reports(chk, prog)
@@ -398,6 +441,8 @@ def run(chk):
 _C = "cnvlib/cnary.py"
 _R = "cnvlib/reports.py"
 MUTANTS = [
+    dict(name="cli: breaks reads bins and segments from swapped files", file="cnvlib/commands.py", old="    cnarr = read_cna(args.filename)\n    segarr = read_cna(args.segment)\n    bpoints = do_breaks(", new="    cnarr = read_cna(args.segment)\n    segarr = read_cna(args.filename)\n    bpoints = do_breaks("),
+    dict(name="cli: genemetrics ignores -m", file="cnvlib/commands.py", old="        args.threshold,\n        args.min_probes,\n        args.drop_low_coverage,", new="        args.threshold,\n        3,\n        args.drop_low_coverage,"),
     dict(name="twin: breakpoint counts through numpy", expect="silent", file="cnvlib/reports.py", old="                probes_left = sum(s < curr_end for s in gstarts)\n                probes_right = sum(s >= curr_end for s in gstarts)", new="                probes_left = len([s for s in gstarts if s < curr_end])\n                probes_right = len(gstarts) - probes_left"),
     dict(name="seeded C16c: by_gene skips chromosomes without a named gene", file="cnvlib/cnary.py", old="            # Row positions (not index labels) delimit the half-open slices\n", new="            if all(gene in ignore for gene in subgary._get_gene_map()):\n                continue\n"),
     dict(name="twin: by_gene maps labels to positions through a dict", expect="silent", file="cnvlib/cnary.py", old="            positions = pd.Series(np.arange(len(subgary)), index=subgary.data.index)\n", new="            positions = {label: pos for pos, label in enumerate(subgary.data.index)}\n"),
